@@ -116,11 +116,16 @@ def explore(run, driver, budget):
     rng = run.rng
     for i in range(n):
         pi = ["gaussian", "nonparametric", "bootstrap", "gaussian"][i % 4]
-        district = rng.random() < 0.3
+        # the second case of every pass: a district election asked for counties but not for districts (the client adds the district
+        # key to every table of such an office; counties are split between districts)
+        dedicated = i == 1
+        district = dedicated or rng.random() < 0.3
         e = E.gen_election(rng, size="medium", district=district, min_reporting=24,
                            roles=["reporting"] * 12 + ["partial"] * 6 + ["zero-dem-baseline", "third-party-heavy"])
         levels = ["postal_code", "county_fips", "county_classification", "unit"] + (["district"] if district else [])
         L_ = rng.sample(levels, rng.randint(2, len(levels)))
+        if dedicated:
+            L_ = ["postal_code", "county_fips", "unit"]
         if "postal_code" not in L_ and pi == "bootstrap":
             L_.append("postal_code")
         if pi == "bootstrap":
